@@ -153,6 +153,8 @@ class C03(PropCheck):
         # the same chains under process-wide settings that must not matter
         for c in [c for c in out if 2 <= len(c["links"]) <= 6][:40 if tier == "quick" else 400]:
             out.append(dict(c, tblimit=rng.choice([0, 1, 2, -1])))
+        for root in ("coro", "gen", "agen"):
+            out.append({"k": "unstarted", "root": root})
         for root in ("coro", "agen", "gen", "agen_thrown_out", "agen_closed_in_finally", "gen_thrown_out", "coro_thrown_out"):
             out.append({"k": "exhausted", "root": root})
         return out
@@ -160,6 +162,51 @@ class C03(PropCheck):
     def run_real(self, case):
         import stackscope
 
+        if case["k"] == "unstarted":
+            # created but never stepped: an exception thrown in now unwinds through its one frame, at the def line
+            root = case["root"]
+            if root == "coro":
+                async def f():
+                    await chains.trap()
+                x = f()
+            elif root == "gen":
+                def f():
+                    yield 1
+                x = f()
+            else:
+                async def f():
+                    yield 1
+                x = f()
+            st = stackscope.extract(x)
+            st_nc = stackscope.extract(x, with_contexts=False)
+            fr = chains.frame_of(x)
+            env, ids = heap_env(x)
+            case["_env"] = env
+            self._oracle = None
+            at_def = [(fr, fr.f_lineno)]
+            try:
+                if root == "agen":
+                    x.athrow(chains.Probe()).send(None)
+                else:
+                    x.throw(chains.Probe())
+            except chains.Probe as e:
+                tb = e.__traceback__
+                path = []
+                while tb is not None:
+                    if tb.tb_frame is fr:
+                        path.append((tb.tb_frame, tb.tb_lineno))
+                    tb = tb.tb_next
+            except BaseException:
+                path = []
+            if not path:
+                path = at_def          # (the interpreter ended it without entering the frame: where it was parked is the def line)
+            got = [(f_.pyframe, f_.lineno) for f_ in st.frames]
+            if got != path or [(f_.pyframe, f_.lineno) for f_ in st_nc.frames] != path or st.leaf is not None or st.error is not None:
+                self._oracle = (f"unstarted {root}: frames/lines {[(a.f_code.co_name, b) for a, b in got]}, leaf {st.leaf!r}, error {st.error!r}; an "
+                                f"exception thrown in unwinds through {[(a.f_code.co_name, b) for a, b in path]}")
+            if root == "coro":
+                x.close()
+            return show(st, ids)
         if case["k"] == "exhausted":
             root = case["root"]
             if root == "coro":
